@@ -235,3 +235,35 @@ def gen_v3(rng, m=None, n=None, with_blocks=True, chunks=None):
     else:
         raise RuntimeError('could not build an unambiguous v3 file')
     return {'kind': 'v3', 'entries': entries, 'records': recs, 'spec': spec, 'data': data, 'model': model}
+
+
+# ---------------------------------------------------------------------------------------------
+# decodable content: records produced from kernel-shaped scenarios (for the trace/format pipelines)
+# ---------------------------------------------------------------------------------------------
+
+def gen_scenario_events(rng, n_scenarios=6, tids=(11, 12, 13), complete=True, t0=0x100000001):
+    """Events of several scenario templates on a few threads, interleaved order-preservingly."""
+    from vlib import histories as H
+    programs = []
+    for k, tid in enumerate(tids):
+        keyspace = {'tid': tid, 'pid': 100 * (k + 1), 'sid': 1000 * (k + 1)}
+        prog = []
+        for _ in range(max(1, n_scenarios // len(tids))):
+            prog += H.scenario(rng, keyspace)
+        programs.append(prog)
+    order = H.random_interleaving(rng, programs)
+    items = [(tids[t], programs[t][i]) for t, i in order]
+    return H.materialize(items, t0=t0)
+
+
+def events_to_records(events):
+    return [wire.record(e.timestamp, e.data, e.tid, e.debugid, cpuid=i % 4) for i, e in enumerate(events)]
+
+
+def threadmap_for(events, rng=None, undeclared=()):
+    """A thread map declaring the threads that occur in the events (except those listed as undeclared)."""
+    tids = []
+    for e in events:
+        if e.tid not in tids and e.tid not in undeclared:
+            tids.append(e.tid)
+    return [(tid, 100 + i, b'proc%d' % i, b'') for i, tid in enumerate(tids)]
